@@ -83,6 +83,7 @@ def gen_alloc(rng, max_cells: int = 40, allow_fixed: bool = True) -> dict:
             idx.pop(rng.randrange(len(idx)))
     nm = rng.randint(1, 5)
     mods = MODS[:nm]
+    deep = rng.choice([9, 10, 11, 30]) if rng.random() < 0.06 else None      # depths are bookkeeping: a long refinement history
     t = rng.choice(THRESHOLDS)
     cells = []
     nfixed = 0
@@ -112,6 +113,8 @@ def gen_alloc(rng, max_cells: int = 40, allow_fixed: bool = True) -> dict:
                     val = round(rng.random(), rng.choice([1, 2, 3, 16]))
                 amap[m] = float(val)
         depth = rng.choice([0, 0, 0, 1, 2, 3]) if rng.random() < 0.5 else 0
+        if deep is not None:
+            depth = deep + rng.choice([0, 0, 1])
         cells.append({"r": spec, "a": amap, "d": depth, "f": fixed})
     # every module must have positive area somewhere (otherwise the centre of mass is undefined)
     tot: dict = {}
